@@ -290,6 +290,19 @@ func genC02(e *emitter, tier string, seed uint64) map[string]interface{} {
 		p2.pairs = [][2]item{{item{data: []byte("z")}, item{rep: true, b: 'Z', n: rest2 - rest2/2}}, {item{data: []byte("a")}, item{data: []byte("x")}},
 			{item{data: []byte("m")}, item{rep: true, b: 'M', n: rest2 / 2}}}
 		overBudgetCase(e, p2, total)
+		// the sorted-last pair has a key / value of exactly 127 or 128 bytes (the two sides of the length-prefix boundary)
+		for _, kl := range []int{127, 128} {
+			for _, vl := range []int{127, 128, 3} {
+				p3 := &pkt{version: 2, typ: "request", cmd: 9, rid: 3, body: genBody(rg, 4)}
+				lastK := append([]byte("z"), bytes.Repeat([]byte("k"), kl-1)...)
+				lastV := bytes.Repeat([]byte("w"), vl)
+				lastSize := len(encStr(lastK)) + len(encStr(lastV))
+				fixed3 := len(encStr([]byte("a"))) + 2 + len(encStr([]byte("m"))) + 2 + lastSize
+				rest3 := total - fixed3
+				p3.pairs = [][2]item{{item{data: lastK}, item{data: lastV}}, {item{data: []byte("a")}, item{rep: true, b: 'A', n: rest3 - rest3/2}}, {item{data: []byte("m")}, item{rep: true, b: 'M', n: rest3 / 2}}}
+				overBudgetCase(e, p3, total)
+			}
+		}
 	}
 	return map[string]interface{}{}
 }
